@@ -105,6 +105,99 @@ def walk(rng, n_ops):
     return ops, plan
 
 
+def tlc_walks(wd, tier):
+    """M2: behaviours of Session.tla drawn by TLC (-simulate, MC_SessionSim) turned into driver scripts. The behaviour fixes the
+    SCHEDULE (which entry point, which preference value, which expression or a rejected one, which rule file is damaged or repaired
+    and when, undo / place marker steps, calls before set_rules_dir, calls with no expression); where a move lands is up to the
+    navigation rules. The recording is projected and judged by Trace_Session like every other walk."""
+    num, depth = (4, 40) if tier == "quick" else (40, 40)
+    r = C.run_tlc("MC_SessionSim", "MC_Session_sim.cfg", wd, workers=1, coverage=False, simulate=num, depth=depth, seed_=C.seed(), timeout=600)
+    behaviours, seen = [], set()
+    for h in C.replay_lines(r):
+        key = json.dumps(h[:-1], sort_keys=True)          # TLC evaluates the invariant on every successor of the last state: one per prefix
+        if key not in seen:
+            seen.add(key)
+            behaviours.append(h)
+    if len(behaviours) < num // 2:
+        raise C.ToolError(f"MC_SessionSim exported only {len(behaviours)} behaviours ({r['error']})")
+    scripts, actions = [], {}
+    for bi, h in enumerate(behaviours):
+        rng = random.Random(C.seed() * 31 + bi)
+        ops = [{"op": "fs_clone_rules"}, {"op": "fs_mtime_all", "path": "$RULES", "secs": 1000}]
+        plan = []
+
+        def call(o):
+            ops.append(o)
+            plan.append((len(ops) - 1, "call", None))
+            ops.extend([{"op": "nav_state"}, {"op": "prefs_dump"}, {"op": "cache_state"}])
+        clock = 1000
+        prev = None
+        aligned = False
+        for st in h:
+            op = st["op"]
+            actions[op] = actions.get(op, 0) + 1
+            if op == "environment":
+                for k in ("speech", "braille"):
+                    for x, f in st["file"][k].items():
+                        if prev is None or prev["file"][k][x] != f:
+                            path = speech_path(x) if k == "speech" else braille_path(x)
+                            clock += 10
+                            if f["good"]:
+                                ops.append({"op": "fs_copy", "from": os.path.join(C.REPO, "Rules", path), "to": "$RULES/" + path})
+                            else:
+                                ops.append({"op": "fs_write", "path": "$RULES/" + path, "content": BROKEN})
+                            ops.append({"op": "fs_mtime", "path": "$RULES/" + path, "secs": clock})
+                            plan.append((len(ops) - 1, "env", (k, path, clock, f["good"])))
+            elif op == "set_rules_dir":
+                call({"op": "set_rules_dir", "dir": "$RULES"})
+                if not aligned:
+                    # the model's initial preference values are arbitrary: make the session agree with them
+                    aligned = True
+                    call({"op": "set_pref", "name": "SpeechStyle", "value": "ClearSpeak"})
+                    call({"op": "set_pref", "name": "Language", "value": st["lang"]})
+                    call({"op": "set_pref", "name": "BrailleCode", "value": st["code"]})
+                    call({"op": "set_pref", "name": "CheckRuleFiles", "value": "All" if st["checkAll"] else "Prefs"})
+            elif op == "set_preference":
+                if prev is not None and st["lang"] != prev["lang"]:
+                    call({"op": "set_pref", "name": "Language", "value": st["lang"]})
+                elif prev is not None and st["code"] != prev["code"]:
+                    call({"op": "set_pref", "name": "BrailleCode", "value": st["code"]})
+                elif prev is not None and st["highlight"] != prev["highlight"]:
+                    call({"op": "set_pref", "name": "BrailleNavHighlight", "value": st["highlight"]})
+                elif prev is not None and st["checkAll"] != prev["checkAll"]:
+                    call({"op": "set_pref", "name": "CheckRuleFiles", "value": "All" if st["checkAll"] else "Prefs"})
+                else:       # a value set to what it already is, or a call before set_rules_dir
+                    call({"op": "set_pref", "name": rng.choice(["Language", "BrailleCode"]), "value": st["lang"]} if rng.random() < 0.5 else
+                         {"op": "set_pref", "name": "BrailleNavHighlight", "value": st["highlight"]})
+            elif op == "set_mathml":
+                if st["newExpr"]:
+                    call({"op": "set_mathml", "mathml": EXPRS[0 if st["expr"] == "e1" else 1] if rng.random() < 0.7 else rng.choice(EXPRS)})
+                else:
+                    good_file = st["file"]["speech"][st["lang"]]["good"]
+                    call({"op": "set_mathml", "mathml": rng.choice(BAD_EXPRS) if good_file or rng.random() < 0.3 else rng.choice(EXPRS)})
+            elif op == "get_spoken_text":
+                call({"op": "speech"})
+            elif op == "get_braille":
+                call({"op": "braille", "id": ""})
+            elif op == "do_navigate_command":
+                if st["undo"]:
+                    cmd = "MoveLastLocation"
+                elif st["marked"]:
+                    cmd = rng.choice(["SetPlacemarker0", "SetPlacemarker1"])
+                elif st["toMarker"]:
+                    cmd = rng.choice(["MoveTo0", "MoveTo1"])
+                else:
+                    cmd = rng.choice([c for c in NAV if not c.startswith(("SetPlacemarker", "MoveTo", "MoveLast"))])
+                call({"op": "nav_cmd", "cmd": cmd})
+            elif op == "set_navigation_node":
+                call({"op": "set_nav_node", "id": rng.choice(["${ID:1}", "${ID:2}", "${ID:0}"]) if st["navNodeKnown"] else rng.choice(["no-such-id", "${OLDID:1}"]), "offset": 0})
+            elif op == "get_navigation_node_from_braille_position":
+                call({"op": "node_from_braille", "pos": rng.choice([0, 1, 2]) if st["res"] == "ok" else rng.choice([40, 40, 1])})
+            prev = st
+        scripts.append({"id": f"tlc{bi}", "ops": ops, "plan": plan})
+    return scripts, actions
+
+
 def project(ops, plan, results):
     """-> events for Trace_Session (or None when the recording is unusable)."""
     files = {"speech": {speech_path(l): {"ver": 1000, "good": True} for l in LANGS}, "braille": {braille_path(c): {"ver": 1000, "good": True} for c in CODES}}
@@ -175,6 +268,9 @@ def stage(pid, wd, tier, verdict):
     for wi in range(n_walks):
         ops, plan = walk(random.Random(C.seed() * 977 + wi), n_ops)
         scripts.append({"id": f"walk{wi}", "ops": ops, "plan": plan})
+    tlc_scripts, tlc_actions = tlc_walks(wd, tier)
+    scripts += tlc_scripts
+    n_walks = len(scripts)
     results = C.run_mcv([{"id": s["id"], "ops": s["ops"]} for s in scripts], wd, name="sessionwalk", timeout_ms=120000)
     n_events, n_rej, n_drift, unusable = 0, 0, 0, 0
     drift_ops = {}
@@ -202,7 +298,7 @@ def stage(pid, wd, tier, verdict):
         raise C.ToolError("session walks: no usable recording")
     for op, n in sorted(drift_ops.items()):
         verdict.add_drift(f"session walk: {n} step(s) of {op} are not steps of Session!Next")
-    return {"session_walks": n_walks - unusable, "session_walk_events": n_events, "session_walk_rejections_all_properties": n_rej, "session_walk_drift": n_drift}
+    return {"session_walks_scheduled_by_tlc": len(tlc_scripts), "session_spec_actions_scheduled": tlc_actions, "session_walks": n_walks - unusable, "session_walk_events": n_events, "session_walk_rejections_all_properties": n_rej, "session_walk_drift": n_drift}
 
 
 def model_check(wd, tier):
